@@ -22,10 +22,14 @@ RULE = ("classes: (a) the mutate suite's collection-heavy classes with its op hi
         "on the deep copy, on the unpickled copy, on a fresh twin and on the original, fingerprint (dump, hash, str, "
         "serialization) of the other instance after every op; deep alias probe: every native mutator / setattr / del on every "
         "object reachable (depth 3) from the copy resp. the original, the other instance must keep its fingerprint; "
-        "assignments and deletions on copy.copy(x) vs a fresh twin; two fixed cases: __validate__ hook after unpickling, "
+        "assignments and deletions on copy.copy(x) vs a fresh twin; classes with _enable_undefined_value (20% of the "
+        "spelling classes, 12% of the mutate classes, plus a directed stream of small mostly-optional classes): triples with "
+        "different subsets of optional fields left unset / explicitly None in random order (both operand orders are compared), "
+        "histories with x.f = None / re-assignment / None over a stored value; the first instance after its history joins the "
+        "comparison matrix; two fixed cases: __validate__ hook after unpickling, "
         "Decimals with different exponents; non-trivial = >=2 instances; distinct by sha256 of the case line")
 ASSUMPTIONS = [
-    "the undefined-value feature (_enable_undefined_value, the only writer of _none_fields) is off: _none_fields is empty; the model carries it, the harness never populates it",
+    "_enable_undefined_value is modelled for the top-level class only (Inst.nones / Inst.undef, getA reads Undefined, setattrUndef); nested instances carry no _none_fields in the value model; the constructor model (C01/C02) does not know the flag, so start states of such classes are taken from the real code",
     "Python's str() of floats, Decimals, enum members, deques, frozensets is an oracle table per case (Render); theorems that need a property of it state it as a hypothesis",
     "hash(str) collisions between different strings are ignored: the correspondence compares str(x), the oracle compares hash(x)",
     "independence of copy.copy is not claimed by the property (it shares the wrappers, which stay bound to the original)",
